@@ -132,6 +132,7 @@ impl<'a, R: RealNumberInternalTrait> Default for LibraryLoader<'a, R> {
 pub struct Interpreter<'a, R: RealNumberInternalTrait> {
     pub env: Rc<Environment<R>>,
     lib_loader: LibraryLoader<'a, R>,
+    libraries: HashMap<LibraryName, Library<R>>, // instantiated once per interpreter
     imported_library: HashSet<LibraryName>,
     import_end: bool, // indicate program's import declaration part end
     pub program_directory: Option<PathBuf>,
@@ -149,6 +150,7 @@ impl<'a, R: RealNumberInternalTrait> Interpreter<'a, R> {
         let mut interpreter = Self {
             env: environment,
             lib_loader: LibraryLoader::default(),
+            libraries: HashMap::new(),
             imported_library: HashSet::new(),
             import_end: false,
             program_directory: None,
@@ -173,11 +175,15 @@ impl<'a, R: RealNumberInternalTrait> Interpreter<'a, R> {
         &self.lib_loader
     }
     pub fn append_lib_loader(&mut self, lib_loader: LibraryLoader<'a, R>) {
+        for name in lib_loader.iter_library_names() {
+            self.libraries.remove(name);
+        }
         self.lib_loader
             .lib_factories
             .extend(lib_loader.lib_factories.into_iter());
     }
     pub fn register_library_factory(&mut self, library_factory: LibraryFactory<'a, R>) {
+        self.libraries.remove(library_factory.get_library_name());
         self.lib_loader.register_library_factory(library_factory);
     }
 
@@ -506,6 +512,9 @@ impl<'a, R: RealNumberInternalTrait> Interpreter<'a, R> {
         }
     }
     pub fn get_library(&mut self, name: Located<LibraryName>) -> Result<Library<R>> {
+        if let Some(library) = self.libraries.get(&name) {
+            return Ok(library.clone());
+        }
         let factory = match self.lib_loader.lib_factories.get(&name) {
             Some(factory) => factory,
             None => {
@@ -517,7 +526,9 @@ impl<'a, R: RealNumberInternalTrait> Interpreter<'a, R> {
             }
         }
         .clone();
-        self.new_library(&factory)
+        let library = self.new_library(&factory)?;
+        self.libraries.insert(name.deref().clone(), library.clone());
+        Ok(library)
     }
     pub fn eval_import_set(&mut self, import: &ImportSet) -> Result<Vec<(String, Value<R>)>> {
         match &import.data {
